@@ -364,3 +364,33 @@ Proof.
     apply negb_true_iff. destruct (String.eqb_spec (fst kv) g) as [E|_]; [|reflexivity]. rewrite E, Hg in H. discriminate H. }
   rewrite (K G1 H1), (K G2 H2). reflexivity.
 Qed.
+
+(* ---- the function table of a machine or of a Sem state at top level: the four leaf built-ins with the values the
+   globals bind them to; the other built-ins (exit and the generators) as function names without a value, so
+   that no statement of the fragment may mention them and a call of them has no meaning in ssem ---- *)
+Definition other_builtins : list string := ["exit"; "fromto"; "indices"; "elems"]%string.
+Definition is_leaf (nm : string) : bool := match bop_of_name nm with Some _ => true | None => String.eqb nm "read" end.
+Definition tab_of (G : list (string * value)) : ftab :=
+  {| ft_val := fun nm => if is_leaf nm then gval G nm else VNil;
+     ft_body := fun nm => if existsb (String.eqb nm) other_builtins then Some (NInt 0) else None;
+     ft_arity := fun _ => 0 |}.
+
+Lemma other_cases nm : existsb (String.eqb nm) other_builtins = true ->
+  nm = "exit"%string \/ nm = "fromto"%string \/ nm = "indices"%string \/ nm = "elems"%string.
+Proof.
+  unfold other_builtins. cbn [existsb].
+  destruct (String.eqb_spec nm "exit"); [auto|]. destruct (String.eqb_spec nm "fromto"); [auto|].
+  destruct (String.eqb_spec nm "indices"); [auto|]. destruct (String.eqb_spec nm "elems"); [auto|]. discriminate.
+Qed.
+
+Lemma tab_names G nm : is_bname (tab_of G) nm = true ->
+  nm = "write"%string \/ nm = "toa"%string \/ nm = "aton"%string \/ nm = "read"%string \/
+  nm = "exit"%string \/ nm = "fromto"%string \/ nm = "indices"%string \/ nm = "elems"%string.
+Proof.
+  unfold is_bname. destruct (bop_of_name nm) as [b|] eqn:Eb.
+  - intros _. destruct (bop_name_cases nm b Eb) as [[E _]|[[E _]|[E _]]]; subst nm; auto.
+  - destruct (String.eqb_spec nm "read") as [->|_]; [auto 10|]. cbn [orb tab_of ft_body].
+    destruct (existsb (String.eqb nm) other_builtins) eqn:E; [|discriminate]. intros _.
+    destruct (other_cases nm E) as [->|[->|[->| ->]]]; auto 10.
+Qed.
+
